@@ -16,7 +16,7 @@ import z3
 
 from pyvc.task import Task, FiniteTask
 from pyvc.interp import Interp, Config, LoopSpec
-from pyvc.values import SV, Obj, Env, Ev, ExcVal, PyRaise, ByteArr, Unsupported, GenObj
+from pyvc.values import SV, Obj, Env, Ev, ExcVal, PyRaise, ByteArr, Unsupported, GenObj, SymSeq
 from contracts import recvpath
 from contracts.recvpath import READ, DECODE
 
@@ -258,8 +258,115 @@ class ReceivePrimitiveTask(Task):
             I.ob(f"{P}/no-event-for-a-decodable-fragment", evs == [], detail=repr(evs))
 
 
+# ---------------------------------------------------------------------------------------------
+# utils.decode_bytes: AE titles / UIDs taken from received bytes
+# ---------------------------------------------------------------------------------------------
+DECB = "pynetdicom.utils:decode_bytes"
+ASCII_NAMES = ("ascii", "646", "us-ascii")
+
+
+class BytesV:
+    """abstract bytes value: all that matters here is whether every byte is < 128 (a Boolean, decided where the code asks)"""
+
+    def __init__(self, I, name, ascii_):
+        self.name, self.ascii = name, ascii_
+
+    def truth(self, I):
+        return I.fresh("bool", f"{self.name} is not empty")
+
+    def as_symseq(self, I):
+        n = I.fresh("int", f"len({self.name})").e
+        I.assume(n >= 0)
+        by = z3.Function(f"byte({self.name})", z3.IntSort(), z3.IntSort())
+        return SymSeq(self.name, n, lambda i: SV(by(i), "int"))
+
+    def sym_method(self, I, name, args, kw):
+        if name == "decode":
+            codec = args[0] if args else kw.get("encoding", "utf-8")
+            errors = args[1] if len(args) > 1 else kw.get("errors", "strict")
+            if errors != "strict" or not isinstance(codec, str):
+                raise Unsupported("bytes.decode with an error handler other than strict")
+            I.trace.append(Ev("decode", (self, codec)))
+            if codec in ASCII_NAMES:
+                if I.branch(self.ascii if isinstance(self.ascii, (bool, SV)) else SV(self.ascii, "bool"), "every byte is ASCII"):
+                    return StrV(I, f"ascii({self.name})", True)
+                raise PyRaise(ExcVal("UnicodeDecodeError", ("ascii", "ordinal not in range(128)")))
+            # any other codec (a configured fallback): fails, or gives some text - ASCII or not
+            if I.choose(2, f"decoding with {codec}") == 0:
+                raise PyRaise(ExcVal("UnicodeDecodeError", (codec, "invalid byte")))
+            return StrV(I, f"{codec}({self.name})", I.fresh("bool", "decoded text is ASCII"))
+        return NotImplemented
+
+
+class StrV:
+    def __init__(self, I, name, ascii_):
+        self.name, self.ascii = name, ascii_
+
+    def sym_kind(self):
+        return "str"
+
+    def sym_method(self, I, name, args, kw):
+        if name == "encode":
+            codec = args[0] if args else kw.get("encoding", "utf-8")
+            errors = args[1] if len(args) > 1 else kw.get("errors", "strict")
+            if codec not in ASCII_NAMES:
+                raise Unsupported("str.encode with a codec other than ASCII")
+            if errors == "ignore":
+                return BytesV(I, f"ascii-part({self.name})", True)       # characters outside ASCII are dropped
+            if I.branch(self.ascii if isinstance(self.ascii, (bool, SV)) else SV(self.ascii, "bool"), "text is ASCII"):
+                return BytesV(I, f"bytes({self.name})", True)
+            raise PyRaise(ExcVal("UnicodeEncodeError", ("ascii", "ordinal not in range(128)")))
+        return NotImplemented
+
+
+class DecodeBytesTask(Task):
+    """decode_bytes is total on arbitrary received bytes: it returns ASCII text or raises ValueError - nothing else escapes,
+    whatever fallback codecs are configured - and the recursion ends after one step (its argument is ASCII by then)."""
+    name = "utils.decode_bytes"
+    functions = [DECB]
+    CONFIGS = [("ascii", "utf8"), ("utf8", "shift_jis", "646"), (), ("ascii",), ("latin-1",)]
+
+    def config(self, repo):
+        c = Config()
+        c.ob_prefix = "C02/"
+        c.module_consts[("pynetdicom._config", "CODECS")] = lambda I: I.ghost["codecs"]
+        return c
+
+    def body(self, I):
+        P = f"C02/{DECB}"
+        g = I.ghost
+        g["codecs"] = self.CONFIGS[I.choose(len(self.CONFIGS), "configured codecs")]
+        b = BytesV(I, "received", I.fresh("bool", "received bytes are ASCII"))
+        orig = I.call_func
+        depth = {"n": 0, "max": 0, "args": []}
+        fi_dec = I.repo.func(DECB)
+
+        def spy(fi, args, kwargs, closure=None):
+            if fi is fi_dec:
+                depth["n"] += 1
+                depth["max"] = max(depth["max"], depth["n"])
+                depth["args"].append(args[0])
+                try:
+                    return orig(fi, args, kwargs, closure)
+                finally:
+                    depth["n"] -= 1
+            return orig(fi, args, kwargs, closure)
+        I.call_func = spy
+        try:
+            kind, val = I.run_function(fi_dec, [b])
+        finally:
+            I.call_func = orig
+        if kind == "return":
+            I.ob(f"{P}/returns-ASCII-text", isinstance(val, StrV) and val.ascii is True, detail=repr(getattr(val, "name", val)))
+        else:
+            I.ob(f"{P}/only-ValueError-escapes-whatever-the-bytes-and-the-configured-codecs", val.cls_name == "ValueError", detail=repr(val))
+        I.ob(f"{P}/the-recursion-ends-after-one-step:its-argument-is-ASCII",
+             depth["max"] <= 2 and all(isinstance(a, BytesV) and a.ascii is True for a in depth["args"][1:]),
+             detail=f"depth {depth['max']}")
+
+
 def tasks(tier):
-    ts = [recvpath.ReadPduTask(), recvpath.DecodeTask(), recvpath.DecodeFailTask()]
+    ts = [recvpath.ReadPduTask(), recvpath.DecodeTask(), recvpath.DecodeFailTask(), DecodeBytesTask()]
     ts += [GenItemsTask(k) for k in GEN]
     ts += [ConversionFrameTask(), ReceivePrimitiveTask()]
     ts += [StabilityTask(c) for c in FIXED]
